@@ -378,3 +378,6 @@ Proof.
     congruence.
   - destruct (oentry_fails oe (find_obj d (oe_path oe))); [reflexivity | discriminate].
 Qed.
+
+Lemma tojson_numbers : forall f, tojson_null_model (TJNum f) = tojson_null_spec (TJNum f).
+Proof. reflexivity. Qed.
